@@ -22,6 +22,7 @@ REFACTOR_PROPS = {
     "add_unrelated_init_closure": ["C01", "C02", "C11"],
     "recovery_early_return": ["C19", "C18"],
     "chain_local_accumulator": ["C19", "C18"],
+    "struct_zero_compare_validateReq": ["C09", "C13", "C18", "C19"],
 }
 
 
